@@ -23,6 +23,8 @@ import SqiProofs.VerifyWf
 import SqiModel.VerifyDecision
 import SqiGen.VerifGuard
 
+set_option autoImplicit false
+
 namespace SqiProps.C03
 open SqiModel.Verify SqiGen.VerifGuard
 set_option linter.unusedSimpArgs false
@@ -168,6 +170,19 @@ theorem verify_safe_heur {K : Lvl} (hK : IsLevel K) (pk : RawPk) (s : RawSigH) :
   split
   · next hg => exact verify_safe_partial_heur hK pk s ((guard_iff_inRange_heur K pk s).1 hg)
   · intro a ha; cases ha
+
+/-- totality: every input-controlled loop of the verifier (`ec_dbl_iter` counts, the small two-isogeny chain, the
+    unsigned `e_half - 1` bound of the 4-isogeny chain, cofactor clearing) runs at most `f` times, for ALL field values
+    (corollary of `verify_safe_*`: loop bounds are part of the access list) -/
+theorem verify_total_dim2 {K : Lvl} (hK : IsLevel K) (pk : RawPk) (s : RawSig) (what : String) (count : Int) (max : Nat)
+    (h : Access.loop what count max ∈ verifyAccessesDim2 K dim2 pk s) : count ≤ max := by
+  have := verify_safe_dim2 hK pk s _ h
+  simpa [Access.ok] using this
+
+theorem verify_total_heur {K : Lvl} (hK : IsLevel K) (pk : RawPk) (s : RawSigH) (what : String) (count : Int) (max : Nat)
+    (h : Access.loop what count max ∈ verifyAccessesHeur K heur pk s) : count ≤ max := by
+  have := verify_safe_heur hK pk s _ h
+  simpa [Access.ok] using this
 
 /-- values outside the honest ranges are rejected (return value 0 whatever the arithmetic computes, whether or not
     the later validity checks exist) and nothing is accessed -/
